@@ -22,7 +22,14 @@ EXPLANATION = "state = canonical tree census (ids, levels, classes, start metaep
 
 
 def units(tier, seed):
-    return lifecycle_units(tier, seed)
+    us = lifecycle_units(tier, seed)
+    # several trees in ONE process that register different deme classes for the same user config class
+    s = 1 + seed % 1000
+    seq = []
+    for k, eng in enumerate([("STUB", "DE"), ("STUBX", "DE"), ("DE", "STUB"), ("SEA", "STUBX", "DE"), ("STUBX",), ("STUB", "STUBEA")]):
+        seq.append(dict(engines=list(eng), gens=1, Mh=3, seed=s, choices="", sprout={"kind": "scripted", "L": 2, "default": 1}))
+    us.append({"kind": "sequence", "descs": seq + seq[::-1]})
+    return us
 
 
 def _nontrivial(x):
@@ -30,6 +37,10 @@ def _nontrivial(x):
 
 
 def run_unit(unit):
+    if unit.get("kind") == "sequence":
+        from ..runlib import run_descs
+
+        return run_descs(Result(), ID, unit, unit["descs"], MONITORS, _nontrivial)
     return run_split_unit(ID, unit, MONITORS, _nontrivial)
 
 
